@@ -917,6 +917,56 @@ func registerDBModels() {
 	}
 
 	// contract builtins over the ghost database
+	for g, srt := range wctxGetters {
+		g, srt := g, srt
+		contractBuiltins["wctx_"+g] = func(x *Exec, env *CEnv, n *CCall) (*CV, error) {
+			v, err := x.eval(env, n.Args[0])
+			if err != nil {
+				return nil, err
+			}
+			x.wctxDecl()
+			ty := types.Type(types.Typ[types.String])
+			if srt == SBV64 {
+				ty = types.Typ[types.Uint64]
+			}
+			return &CV{T: App(srt, "wctx_"+g, x.cvTerm(v, nil)), Ty: ty}, nil
+		}
+	}
+	contractBuiltins["runeat"] = func(x *Exec, env *CEnv, n *CCall) (*CV, error) {
+		sv, err := x.eval(env, n.Args[0])
+		if err != nil {
+			return nil, err
+		}
+		iv, err := x.eval(env, n.Args[1])
+		if err != nil {
+			return nil, err
+		}
+		x.runeDecl()
+		return &CV{T: App(BVSort(32), "rune.at", x.cvTerm(sv, nil), x.cvTerm(iv, &CV{T: bv64(0)})), Ty: types.Typ[types.Int32]}, nil
+	}
+	contractBuiltins["runelen"] = func(x *Exec, env *CEnv, n *CCall) (*CV, error) {
+		sv, err := x.eval(env, n.Args[0])
+		if err != nil {
+			return nil, err
+		}
+		iv, err := x.eval(env, n.Args[1])
+		if err != nil {
+			return nil, err
+		}
+		x.runeDecl()
+		return &CV{T: App(SBV64, "rune.len", x.cvTerm(sv, nil), x.cvTerm(iv, &CV{T: bv64(0)})), Ty: types.Typ[types.Int]}, nil
+	}
+	for _, nm := range []string{"IsLetter", "IsDigit"} {
+		nm := nm
+		contractBuiltins["unicode_"+nm] = func(x *Exec, env *CEnv, n *CCall) (*CV, error) {
+			v, err := x.eval(env, n.Args[0])
+			if err != nil {
+				return nil, err
+			}
+			x.sc.Decl("fn:unicode."+nm, fmt.Sprintf("(declare-fun unicode.%s ((_ BitVec 32)) Bool)", nm))
+			return &CV{T: App(SBool, "unicode."+nm, x.cvTerm(v, &CV{T: BVConst(0, 32)})), Ty: types.Typ[types.Bool]}, nil
+		}
+	}
 	contractBuiltins["hashof"] = func(x *Exec, env *CEnv, n *CCall) (*CV, error) {
 		v, err := x.eval(env, n.Args[0])
 		if err != nil {
